@@ -5,7 +5,7 @@ use crate::fail;
 use crate::props::c01::check_lib_handshake;
 use crate::props::parse_case;
 use crate::refcodec::{self, RefGreeting};
-use crate::sim::{run_sim, Kind, Out, Sim, ALL_KINDS};
+use crate::sim::{run_sim, Kind, Link, Out, Sim, ALL_KINDS};
 use crate::simx;
 
 use serde::{Deserialize, Serialize};
@@ -594,6 +594,129 @@ pub fn accept_grid() -> Vec<AcceptCase> {
     v
 }
 
+/// An ADAPTIVE peer: it looks at the identities the socket has generated for anonymous peers so
+/// far and announces the ones a predictable generator (a counter, a timestamp) would hand out
+/// next; anonymous peers admitted afterwards must still get identities nobody else holds ("a
+/// fresh unique one").
+#[derive(Debug, Clone, Serialize, Deserialize, PartialEq, Eq, Hash)]
+pub struct GuessCase {
+    pub local: Kind,
+    /// anonymous peers attached first, whose generated identities the adversary sees
+    pub observe: u8,
+    /// 0 = the last identity read as a big-endian number + 1, + 2 ...; 1 = little-endian;
+    /// 2 = continue the difference of the last two (big-endian); 3 = libzmq's shape
+    /// `00 || be32(n)`, n = 1 ..
+    pub predictor: u8,
+    /// how many predicted identities are announced (one connection each)
+    pub guesses: u8,
+    /// anonymous peers admitted afterwards
+    pub later: u8,
+}
+
+fn add_be(v: &[u8], k: u64) -> Vec<u8> {
+    let mut out = v.to_vec();
+    let mut carry = k as u128;
+    for b in out.iter_mut().rev() {
+        let t = *b as u128 + (carry & 0xFF);
+        *b = t as u8;
+        carry = (carry >> 8) + (t >> 8);
+    }
+    out
+}
+
+fn add_le(v: &[u8], k: u64) -> Vec<u8> {
+    let mut r = v.to_vec();
+    r.reverse();
+    let mut r = add_be(&r, k);
+    r.reverse();
+    r
+}
+
+pub fn guess_outcome(c: &GuessCase) -> Outcome {
+    let mut o = Outcome::new(hash_of(c));
+    o.nontrivial = true;
+    o.class("adaptive-identity-guess");
+    let c2 = c.clone();
+    let (r, panics) = capture_panics(|| {
+        run_sim(async move {
+            let c = c2;
+            let mut f = vec![];
+            let mut sim = Sim::new();
+            let s = sim.socket(c.local, None);
+            let mut held: Vec<(Link, Vec<u8>, &'static str)> = vec![];
+            for _ in 0..c.observe.max(1) {
+                match simx::attach_raw(&mut sim, s, None).await {
+                    Ok((l, id)) => held.push((l, id, "generated")),
+                    Err(e) => {
+                        fail!(f, "C04/admitted/second-peer", "{}", e);
+                        return f;
+                    }
+                }
+            }
+            let last = held.last().unwrap().1.clone();
+            let prev = if held.len() >= 2 { held[held.len() - 2].1.clone() } else { last.clone() };
+            for k in 1..=c.guesses.max(1) as u64 {
+                let guess = match c.predictor {
+                    0 => add_be(&last, k),
+                    1 => add_le(&last, k),
+                    2 => {
+                        // difference of the last two, as far as it fits 64 bits
+                        let n = last.len().min(8);
+                        let a = last[last.len() - n..].iter().fold(0u64, |x, b| (x << 8) | *b as u64);
+                        let b = if prev.len() == last.len() { prev[prev.len() - n..].iter().fold(0u64, |x, b| (x << 8) | *b as u64) } else { a.wrapping_sub(1) };
+                        add_be(&last, a.wrapping_sub(b).max(1).wrapping_mul(k))
+                    }
+                    _ => {
+                        let mut g = vec![0u8];
+                        g.extend_from_slice(&(k as u32).to_be_bytes());
+                        g
+                    }
+                };
+                if guess.is_empty() || guess.len() > 255 || held.iter().any(|(_, id, _)| *id == guess) {
+                    continue;
+                }
+                match simx::attach_raw(&mut sim, s, Some(&guess)).await {
+                    Ok((l, id)) => {
+                        if id != guess {
+                            fail!(f, "C04/admitted/identity-not-the-announced-one", "announced {} registered as {}", refcodec::brief(&guess), refcodec::brief(&id));
+                        }
+                        held.push((l, id, "announced"));
+                    }
+                    Err(e) => fail!(f, "C04/rejects-valid-peer", "a peer announcing the identity {} was refused: {}", refcodec::brief(&guess), e),
+                }
+            }
+            for _ in 0..c.later.max(1) {
+                match simx::attach_raw(&mut sim, s, None).await {
+                    Ok((l, id)) => {
+                        if id.is_empty() {
+                            fail!(f, "C04/admitted/empty-identity-assigned", "anonymous peer was registered under an empty identity");
+                        }
+                        if let Some((_, _, how)) = held.iter().find(|(_, other, _)| *other == id) {
+                            fail!(
+                                f,
+                                "C04/admitted/generated-identity-not-unique",
+                                "an anonymous peer was registered under {}, which a connected peer already holds ({}): generated identities are predictable",
+                                refcodec::brief(&id),
+                                how
+                            );
+                        }
+                        held.push((l, id, "generated"));
+                    }
+                    Err(e) => fail!(f, "C04/admitted/second-peer", "{}", e),
+                }
+            }
+            f
+        })
+    });
+    if let Some(f) = r {
+        o.failures = f;
+    }
+    for p in panics {
+        o.fail("C04/panic", p);
+    }
+    o
+}
+
 #[derive(Debug, Clone, Serialize, Deserialize)]
 pub struct CompatCase {
     pub a: String,
@@ -649,6 +772,25 @@ pub fn run(ctx: &Ctx) -> (Report, PropertyMeta) {
     let r = run_cases(ctx, "compat", &cc, compat_outcome);
     report.exhaustive_parts.push("all 12 x 12 SocketType::compatible queries".to_string());
     report.merge(r);
+    // adaptive identity guesses (one thread: a process-wide generator must not be advanced by
+    // another shard between the observation and the guess)
+    {
+        let mut ctx1 = ctx.clone();
+        ctx1.threads = 1;
+        let mut gc = vec![];
+        for local in ALL_KINDS {
+            for observe in [1u8, 2] {
+                for predictor in 0..4u8 {
+                    for (guesses, later) in [(1u8, 1u8), (4, 3), (8, 2)] {
+                        gc.push(GuessCase { local, observe, predictor, guesses, later });
+                    }
+                }
+            }
+        }
+        let r = run_cases(&ctx1, "guess", &gc, guess_outcome);
+        report.exhaustive_parts.push(format!("adaptive peers: 9 local types x 1..2 observed generated identities x 4 predictors (big-endian / little-endian successor, extrapolated difference, libzmq's 00||be32(n)) x 1..8 announced guesses x 1..3 later anonymous peers: {} cases", gc.len()));
+        report.merge(r);
+    }
     // real accept path with a monitor (one thread: real transports)
     {
         let mut ctx1 = ctx.clone();
@@ -709,7 +851,7 @@ pub fn run(ctx: &Ctx) -> (Report, PropertyMeta) {
 
     let meta = PropertyMeta {
         level: "exploration",
-        rule: "exhaustive grid of scripted raw peers attached to real sockets through the real greeting/READY exchange (in-memory pipes): local type x announced Socket-Type x version x mechanism x signature x identity x first post-greeting item; all 144 SocketType::compatible queries; proptest decoration; and, over the REAL accept path (bound TCP / IPC sockets with a monitor installed), every cell that differs from the all-valid one in at most one coordinate: an admitted peer is reported as exactly one Accepted event, a refused one as exactly one AcceptFailed event and its connection is closed; the same cells with the library on the CONNECT side of a raw listener: connect() returns Ok / Err accordingly, never hangs, and a refused connection is closed. Oracle: independent admission predicate from RFC 23 (signature ok, major version >= 3, mechanism known, first item READY, type known and compatible per the RFC table typed into the harness, identity <= 255); admitted -> Ok(id), id = announced identity or fresh and distinct from a second peer's, registered exactly once observed behaviourally per socket type (inbound messages once each, even rotation / routing / one copy / one subscription outbound); rejected -> Err, both connection halves dropped, later traffic never delivered, nothing written, sends behave as with no peer; library's own greeting/READY well-formed in every cell. Non-trivial = cell differs from the all-valid cell in at least one coordinate; distinct by cell".into(),
+        rule: "exhaustive grid of scripted raw peers attached to real sockets through the real greeting/READY exchange (in-memory pipes): local type x announced Socket-Type x version x mechanism x signature x identity x first post-greeting item; all 144 SocketType::compatible queries; proptest decoration; and, over the REAL accept path (bound TCP / IPC sockets with a monitor installed), every cell that differs from the all-valid one in at most one coordinate: an admitted peer is reported as exactly one Accepted event, a refused one as exactly one AcceptFailed event and its connection is closed; the same cells with the library on the CONNECT side of a raw listener: connect() returns Ok / Err accordingly, never hangs, and a refused connection is closed. Oracle: independent admission predicate from RFC 23 (signature ok, major version >= 3, mechanism known, first item READY, type known and compatible per the RFC table typed into the harness, identity <= 255); admitted -> Ok(id), id = announced identity or fresh and distinct from a second peer's - also when adaptive peers announce the identities a predictable generator would hand out next (successors of the generated identities seen so far) -, registered exactly once observed behaviourally per socket type (inbound messages once each, even rotation / routing / one copy / one subscription outbound); rejected -> Err, both connection halves dropped, later traffic never delivered, nothing written, sends behave as with no peer; library's own greeting/READY well-formed in every cell. Non-trivial = cell differs from the all-valid cell in at least one coordinate; distinct by cell".into(),
         assumptions: vec![
             "PLAIN and CURVE count as 'known mechanisms' as the statement says, although the library then runs the NULL handshake".into(),
             "STREAM is compatible with nothing (it does not speak ZMTP)".into(),
@@ -729,6 +871,7 @@ pub fn replay(_ctx: &Ctx, kind: &str, case: &Value) -> Vec<Failure> {
             r
         }),
         "compat" => parse_case::<CompatCase>(case).map(|c| compat_outcome(&c).failures),
+        "guess" => parse_case::<GuessCase>(case).map(|c| guess_outcome(&c).failures),
         _ => Err(vec![Failure::new("replay/unknown-kind", kind.to_string())]),
     }
     .unwrap_or_else(|e| e)
